@@ -112,6 +112,13 @@ CHECKS = {
         "The OS scheduler is not controlled; the virtual pool's fork model is bound to reality by two real-pool runs and an os.fork probe per run.",
         "5/C17",
     ),
+    "C20": (
+        "model_checking",
+        "exhaustive enumeration of ordered output selections x population arguments x aggregation options x transforms on the real PlotData against singleton calls; explicit-state BFS over sequences of reporting calls with full-snapshot purity invariant; exhaustive enumeration of nested cascades",
+        "Every ordered selection of up to 3/4 outputs of an 8-entry alphabet is requested under every population argument, aggregation option and time transform and each series compared with the singleton call; all nested cascade chains over the characteristic lattice are evaluated from results (monotone) and from data (sum of entries); every sequence of up to 3 reporting calls is executed and the result's full structural snapshot compared after each call.",
+        "One generated model family; outputs alphabet listed in mc/props/c20.py.",
+        "5/C20",
+    ),
 }
 
 PENDING_REASON = "check not built yet in this session (see DESIGN.md section 8 for the build order); no claim is made"
